@@ -475,9 +475,9 @@ class TargetOpOracle:
 
 
 def run_fn(S, fn, args_spec, extra_oracles=None, opaque_extra=None):
-    orc = [(re.compile(r"^<.* as (Function)?Expression>::resolve$"), ChildOracle()),
+    orc = [(re.compile(r"^<.* as (\w+::)*(Function)?Expression>::resolve$"), ChildOracle()),
            (re.compile(r"^assignment::Target::insert$"), TargetOracle()),
-           (re.compile(r"^<dyn (target::)?Target as (target::)?Target>::target_(get|insert|remove|get_mut)$"), TargetOpOracle())]
+           (re.compile(r"^<dyn (\w+::)*Target as (\w+::)*Target>::target_(get|insert|remove|get_mut)$"), TargetOpOracle())]
     if extra_oracles:
         orc = list(extra_oracles) + orc
     ex = S.executor(oracles=orc, opaque=OPAQUE + (opaque_extra or []))
@@ -691,3 +691,76 @@ def all_obligations(S, bounds):
         for n, h in run.ex.stats["fns_entered"].items():
             fns.append((n, h))
     return obls, sorted(set(fns)), stats
+
+
+# ----------------------------------------------------------------------------- C17: stdlib call sites of the target (del, exists, unnest)
+
+TARGET_CALL_SITES = {"src/compiler/runtime.rs", "src/compiler/expression/assignment.rs", "src/compiler/expression/query.rs",
+                     "src/stdlib/del.rs", "src/stdlib/exists.rs", "src/stdlib/unnest.rs"}
+
+
+def audit_target_call_sites():
+    """fail-closed: every file that performs a target operation must be covered by a C17 lemma"""
+    import glob, common
+    found = set()
+    for p in glob.glob(os.path.join(common.REPO, "src/**/*.rs"), recursive=True):
+        rel = os.path.relpath(p, common.REPO)
+        if rel == "src/compiler/target.rs" or "/test" in rel:
+            continue
+        src = open(p, errors="replace").read()
+        src = re.sub(r"#\[cfg\(test\)\].*", "", src, flags=re.S)
+        if re.search(r"\.\s*target_(get|insert|remove|get_mut)\s*\(", src):
+            found.add(rel)
+    return found, found - TARGET_CALL_SITES
+
+
+STD_OPAQUE = [r"Query::(path|external_path|variable_ident|expression_target|target)$", r"Context::<'_>::(target_mut|target|state|state_mut)$",
+              r"RuntimeState::(variable|variable_mut)$", r"Value::(get|remove|insert)::<", r"<bool as Into<.*Value>>::into$", r"OwnedTargetPath::root$",
+              r"^unnest_root$|unnest::unnest_root$", r"<impl .*Value>::(get|remove)::<", r"OwnedValuePath::root$", r"Variable::ident$"]
+
+
+def stdlib_target_obligations(S_std):
+    import stdlemmas
+    obls, fns = [], []
+    specs = (("del", [("query", "&compiler::expression::Query"), ("compact", "bool"), ("ctx", "&mut compiler::context::Context<'_>")]),
+             ("exists", [("query", "&compiler::expression::Query"), ("ctx", "&mut compiler::context::Context<'_>")]),
+             ("unnest", [("path", "&compiler::expression::Query"), ("ctx", "&mut compiler::context::Context<'_>")]))
+    VALQ = "value::value::Value"
+    for nm, args in specs:
+        f = stdlemmas.free_fn(S_std, nm, nm)
+        ex, paths = run_fn(S_std, f, args, opaque_extra=STD_OPAQUE)
+        fns.append((f.name, f.text_hash))
+        n_t = 0
+        for pi, p in enumerate(paths):
+            tg = [e for e in p.st.trace if e["kind"] == "target"]
+            if not tg:
+                continue
+            n_t += 1
+            v = V(ex, p.st)
+            r = tg[0]["result"]
+
+            def add(tag, post):
+                role = f"C17:stdlib::{nm}:{tag}"
+                o = Obl(role, {"C17"}, f"{role}#path{pi}", p, post, {"ops": [e["op"] for e in tg], "outcome": p.outcome.kind, "msg": p.outcome.msg})
+                o.ex = ex
+                obls.append(o)
+            if p.outcome.kind != "ret":
+                add("no-panic-on-any-target-answer", z3.BoolVal(False))
+                continue
+            add("no-panic-on-any-target-answer", z3.BoolVal(True))
+            rv = p.outcome.value
+            okv = v.field(rv, "Ok", 0, VALQ)
+            if nm == "exists":
+                rty = "std::result::Result<std::option::Option<&value::value::Value>, std::string::String>"
+                opt = v.field(r, "Ok", 0, "std::option::Option<&value::value::Value>")
+                missing = z3.Or(v.is_variant(r, "Err", rty), z3.And(v.is_variant(r, "Ok", rty), v.is_variant(opt, "None", "std::option::Option<T>")))
+                is_false = z3.And(v.is_variant(rv, "Ok", RES), v.is_variant(okv, "Boolean", VALQ), z3.Not(v.field(okv, "Boolean", 0, "bool").e))
+                add("rejected-read-is-a-missing-field", z3.Implies(missing, z3.And(is_false, z3.BoolVal(len(tg) == 1))))
+            if nm == "del":
+                rty = "std::result::Result<std::option::Option<value::value::Value>, std::string::String>"
+                rejected = v.is_variant(r, "Err", rty)
+                is_null = z3.And(v.is_variant(rv, "Ok", RES), v.is_variant(okv, "Null", VALQ))
+                add("rejected-deletion-is-contained", z3.Implies(rejected, z3.And(is_null, z3.BoolVal(len(tg) == 1 and tg[0]["op"] == "target_remove"))))
+        if n_t == 0:
+            raise Unencodable(f"stdlib {nm}: no path performs a target operation (vacuous)")
+    return obls, fns
